@@ -77,7 +77,7 @@ A64 = [
     ("fmov {0}, {1}", ["d", "s"], ["d", "d"], [], [], False),
 ]
 
-DB_FLAGS_INCOMPLETE = {"adcq", "andq", "orq", "xorq", "testq"}
+DB_FLAGS_INCOMPLETE = set()   # was {adcq, andq, orq, xorq, testq} before the ISA database was repaired (F19)
 
 X86_NAMES = {
     "a": ("rax", "eax", "ax", "al"), "b": ("rbx", "ebx", "bx", "bl"), "c": ("rcx", "ecx", "cx", "cl"),
